@@ -28,6 +28,26 @@ class C12(Prop):
                                           ext=r.choice([None, None, b".txt", b".json"]), upd=r.choice([None, None, True]),
                                           js=r.choice([None, None, {"width": 0, "indent": "", "sortKeys": True}, {"width": 0, "indent": "", "sortKeys": False},
                                                        {"width": 40, "indent": "    ", "sortKeys": True}, {"width": 0, "indent": "\t", "sortKeys": False}])))
+            if r.chance(1, 4):
+                # ONE JSON option value used in two WithConfig calls - in the first one behind an earlier JSON option with other
+                # settings (which it overrides), a Config that may never be used for a call; then on its own: an option value must
+                # not carry anything from one WithConfig to the next
+                shared = r.choice([{"width": 0, "indent": "", "sortKeys": True}, {"width": 0, "indent": "", "sortKeys": False}])
+                first = dict(G.op_newconfig(dir=b"d3", js=shared), json2=r.choice([{"width": 40, "indent": "    ", "sortKeys": False}, {"width": 0, "indent": "\t", "sortKeys": True}]))
+                ops = [first] + ops + [G.op_newconfig(dir=r.choice([b"d1", b"d4"]), fn=r.choice([None, b"out"]), js=shared)]
+                nh += 2
+            if r.chance(1, 8):
+                # ONE Config (no Filename) used by MatchSnapshot calls written in TWO test files: each file's snapshots live under
+                # that file's name, in either order (oracle only: the model's caller file is fixed per case)
+                hcfg = nh
+                t1, t2 = r.shuffle(G.TEST_NAMES)[:2]
+                a = [G.op_match_snap(hcfg, t1, [G.gen_text(r)]) for _ in range(r.range(1, 2))] + [G.op_end(t1)]
+                b = [dict(G.op_match_snap(hcfg, t2, [G.gen_text(r)]), via="util") for _ in range(r.range(1, 2))] + [G.op_end(t2)]
+                if r.chance(1, 2):
+                    a, b = b, a
+                ops = [o_ for o_ in ops if o_["op"] == "newconfig"][:nh - 1] + [G.op_newconfig(dir=r.choice([b"d1", b"d5"]))] + a + b + [{"op": "dumpfs"}]
+                cases.append({"ci": False, "updvar": "unset", "colour": False, "ops": ops, "meta": {"oracle_only": True}})
+                continue
             tests = r.shuffle(G.TEST_NAMES)[: r.range(1, 3)]
             seqs = []
             for t in tests:
@@ -80,7 +100,7 @@ class C12(Prop):
                     ext = G.unhx_s(cfg["ext"]) if cfg["ext"] not in ("~", "-") else (".json" if api == "standjson" else "")
                     exp = re.compile(r"^%s/%s_\d+\.snap%s$" % (re.escape(d), re.escape(fn), re.escape(ext)), re.S)
                 else:
-                    exp = G.expected_multi_path(cfg, api, kv["test"])
+                    exp = G.expected_multi_path(cfg, api, kv["test"], **({"caller_base": "zz_verif_util_test"} if kv.get("via") == "util" else {}))
                 if o["outcome"] in ("added", "updated"):
                     w = [x.split(":", 1)[1] for x in o["writes"].split(",") if x != "-"]
                     got = [unhx(x).decode("latin-1") for x in w]
